@@ -372,16 +372,24 @@ def run_fractions(ctx):
 # -- DATE grid ------------------------------------------------------------------
 def date_case(y, m, d, ctx, route='call'):
     key = 'C18/DATE/y=%d/m=%d/d=%d/route=%s' % (y, m, d, route)
+    inp = {'kind': 'date', 'y': y, 'm': m, 'd': d, 'route': route}
     try:
         want = ref.date_serial(y, m, d)
+    except ref.Beyond:
+        want = None
     except ref.Unjudged as u:
         ctx.skip(u.args[0])
         return
-    inp = {'kind': 'date', 'y': y, 'm': m, 'd': d, 'route': route}
     if route == 'call':
         got = lib.call('DATE', y, m, d)
     else:
         got = lib.eval_formula('=DATE(%d,%d,%d)' % (y, m, d))
+    if want is None:
+        # no date after 9999-12-31: an error value
+        judge(ctx, key, 'err:*', 'err:*' if got.startswith('err:') else got,
+              lambda: {'fn:DATE', 'route:' + route, 'result:after-9999'},
+              inp, True)
+        return
     wy, wm, _ = ref.fields(want)
     carry_m = not 1 <= m <= 12
     carry_d = not 1 <= d <= ref.days_in_month(wy, wm) or (
@@ -415,16 +423,22 @@ def date_grid(tier):
 # -- EDATE / EOMONTH ----------------------------------------------------------
 def month_case(fn, s, k, ctx, route='num'):
     key = 'C18/%s/s=%d/k=%d/route=%s' % (fn, s, k, route)
+    inp = {'kind': 'month', 'fn': fn, 's': s, 'k': k, 'route': route}
+    arg = s if route == 'num' else dt_of(s)
     try:
         want = (ref.edate if fn == 'EDATE' else ref.eomonth)(s, k)
         if want is None or not ref.in_range(want):
             raise ref.Unjudged('month-shift-result-out-of-range')
         shifted = ref.edate(s, k) if fn == 'EOMONTH' else want
+    except ref.Beyond:
+        got = lib.call(fn, arg, k)
+        judge(ctx, key, 'err:*', 'err:*' if got.startswith('err:') else got,
+              lambda: {'fn:' + fn, 'route:' + route, 'result:after-9999'},
+              inp, True)
+        return
     except ref.Unjudged as u:
         ctx.skip(u.args[0])
         return
-    inp = {'kind': 'month', 'fn': fn, 's': s, 'k': k, 'route': route}
-    arg = s if route == 'num' else dt_of(s)
     got = as_date(lib.call(fn, arg, k))
 
     def tags():
